@@ -136,6 +136,11 @@ def run(ctx):
     ctx.extra_cov["transport_reads_scripted"] = rep["segments"] * 2 + rep2["segments"] * 2
     ctx.exhaustive = False
 
+    # 5. growth beyond C27 (thorough tier only, notes only): scpproxy as a transparent proxy
+    if not q:
+        from checks import _proxy
+        _proxy.growth(ctx, SPEC)
+
     # 4. binding self-test
     if not q or os.environ.get("VERIF_SELFTEST"):
         selftest(ctx, rep["trace_files"][0]["path"])
